@@ -332,6 +332,32 @@ pub fn c13_binary_part(ctx: &Ctx, acc: &mut Acc) {
                 }
             }
         }
+        // a working directory that already holds the report of a *different* finding set of the same rendered length:
+        // the same tree with one top-level file renamed to a name of equal length, analysed first; then the name is restored
+        if reports.len() >= 2 {
+            if let Some(Ent::File { name, .. }) = ents.iter().find(|e| matches!(e, Ent::File { name, .. } if name.is_ascii() && name.len() > 4)) {
+                let root = format!("{}/dirty", base);
+                std::fs::create_dir_all(format!("{}/contracts", root)).unwrap();
+                build(&format!("{}/contracts", root), &ents);
+                let mut chars: Vec<char> = name.chars().collect();
+                chars[0] = if chars[0] == 'Q' { 'R' } else { 'Q' };
+                let other: String = chars.into_iter().collect();
+                let (a, b) = (format!("{}/contracts/{}", root, name), format!("{}/contracts/{}", root, other));
+                if !file_exists(&b) && std::fs::rename(&a, &b).is_ok() {
+                    let first = run_solstat(&root, &[]);
+                    let _ = std::fs::rename(&b, &a);
+                    if let (Ok(f1), Ok(second)) = (first, run_solstat(&root, &[])) {
+                        if f1.code == Some(0) && second.code == Some(0) {
+                            acc.eval();
+                            acc.cov("binary-run:cwd-holds-equal-length-report-of-other-findings");
+                            if let Some(rep) = second.report {
+                                reports.push(("cwd-holds-equal-length-report-of-other-findings".to_string(), rep));
+                            }
+                        }
+                    }
+                }
+            }
+        }
         if reports.len() >= 2 {
             let nfiles = {
                 fn count(es: &[Ent]) -> usize {
@@ -347,6 +373,7 @@ pub fn c13_binary_part(ctx: &Ctx, acc: &mut Acc) {
                     let sig = match variant.as_str() {
                         "same-tree-second-run" => "order:process-randomness",
                         "copy-created-in-another-order" => "order:discovery-order",
+                        "cwd-holds-equal-length-report-of-other-findings" => "report-depends-on-previous-report",
                         _ => "order:config",
                     };
                     let a = String::from_utf8_lossy(&reports[0].1).to_string();
